@@ -225,6 +225,17 @@ let parse_ids (s : string) : (z * z list) list =
   List.map (fun x -> match split ':' x with
     | [i; n] -> (z_of_string i, bytes_of_hex n) | _ -> failwith "bad id") (split ',' s)
 
+(* entries with identical names: the implementation's order among them depends on an unstable sort *)
+let name_of_dump (s : string) : string = match String.index_opt s '/' with Some i -> String.sub s 0 i | None -> s
+let rec canon_runs (l : string list) : string list = match l with
+  | [] -> []
+  | x :: _ ->
+    let nx = name_of_dump x in
+    let rec span acc = function
+      | y :: r when name_of_dump y = nx -> span (y :: acc) r
+      | r -> (List.rev acc, r) in
+    let (run, rest) = span [] l in
+    List.sort compare run @ canon_runs rest
 let run_flist_dec fields = match fields with
   | [opts; wire] ->
     let o = parse_fopts opts in
@@ -235,7 +246,7 @@ let run_flist_dec fields = match fields with
      | Inr FBadLink -> "ERR:overflow"
      | Inl r ->
        Printf.sprintf "OK|%s|U:%s|G:%s|IO:%s|C:%d"
-         (String.concat ";" (List.map (dump_entry o) r.fr_entries))
+         (String.concat ";" (canon_runs (List.map (dump_entry o) r.fr_entries)))
          (dump_ids r.fr_uids) (dump_ids r.fr_gids) (string_of_z r.fr_ioerr)
          (List.length w - List.length r.fr_rest))
   | _ -> failwith "flist_dec: want 2 fields"
